@@ -87,6 +87,20 @@ def build_scenarios(prop, tier, rnd):
                    "threads": threads, "env": {"mode": "conc"}, "explore": explore})
 
     dfs = {"kind": "dfs", "bound": 2, "runs": 60 if q else 600}
+    if prop == "C08":
+        deep = {"kind": "dfs", "bound": 3, "runs": 150 if q else 1500}
+        for cl in ("cleanup", "quarantine", "cleanone"):
+            for other in ([{"op": "put", "k": 1, "c": "C"}], [{"op": "put", "k": 2, "c": "C"}, {"op": "del", "k": 2}], [{"op": "del", "k": 1}],
+                          [{"op": "put", "k": 2, "c": "C"}, {"op": "put", "k": 2, "c": "A"}]):
+                for pl in ([{"c": "C"}], [{"c": "C"}, {"c": "E"}], [{"c": "E"}, {"c": "C"}]):
+                    add([{"op": "put", "k": 1, "c": "A"}], [[{"op": cl, "c": "C"}], other], deep, plant=pl)
+        return sc
+    if prop == "C13":
+        for other in ([{"op": "put", "k": 1, "c": "B"}], [{"op": "del", "k": 1}], [{"op": "get", "k": 1}], [{"op": "put", "k": 1, "c": "A"}]):
+            for init in INITS[:2]:
+                add(init, [[{"op": "abort", "k": 1, "c": "B"}, {"op": "abort", "k": 1, "c": "A"}], other], dfs)
+                add(init, [[{"op": "abort", "k": 1, "c": "G"}], other, [{"op": "abort", "k": 1, "c": "A"}]], dfs)
+        return sc
     pairs = []
     if prop in ("C04", "C15"):
         pairs += list(itertools.combinations_with_replacement(W, 2))
@@ -137,8 +151,10 @@ def add_guided(sc, prop, tier):
     return sum(len(g["scheds"]) for g in groups.values())
 
 
-PROP_INV = {"C04": ["Inv_C04", "Inv_C07"], "C05": ["Inv_C05"], "C15": ["Inv_C15"]}
-PROP_TAGS = {"C04": ["C04:", "C07:"], "C05": ["C05:"], "C15": ["C15:"]}
+PROP_INV = {"C04": ["Inv_C04", "Inv_C07"], "C05": ["Inv_C05"], "C15": ["Inv_C15"], "C08": ["Inv_C04", "Inv_C07"], "C13": ["Inv_C04", "Inv_C07"]}
+# C08 (clean-up never harms live data / a put that is committing) and C13 (an abandoned transaction does not disturb a
+# concurrent one on the same key) are judged on their own program classes with the C04/C07 conjuncts of TraceConc
+PROP_TAGS = {"C04": ["C04:", "C07:"], "C05": ["C05:"], "C15": ["C15:"], "C08": ["C04:", "C07:"], "C13": ["C04:", "C07:", "C05:"]}
 
 
 def validate_conc(traces):
@@ -148,7 +164,8 @@ def validate_conc(traces):
     return common.validate_traces(traces, module="TraceConc", cfg=cfg)
 
 
-def run_conc_check(prop, tier, replay=None):
+def run_conc_check(prop, tier, replay=None, merge=False):
+    """merge=True: this is the concurrent half of a property whose evidence file was just written by the sequential half"""
     t0 = time.time()
     rnd = random.Random(seed() * 104729 + int(prop[1:]))
     ensure_built()
@@ -161,7 +178,7 @@ def run_conc_check(prop, tier, replay=None):
         mc = run_mc(tier, PROP_INV[prop], liveness=(prop == "C15"))
         log(f"[{prop}] MCConc: {mc['states']} distinct states, violated={mc['violated']}")
         scen = build_scenarios(prop, tier, rnd)
-        nguided = add_guided(scen, prop, tier)
+        nguided = add_guided(scen, prop, tier) if prop in ("C04", "C05", "C15") else 0
     log(f"[{prop}] {len(scen)} concurrent programs ({nguided} TLC-generated schedules among them)")
     t1 = time.time()
     traces = run_harness(scen, prop, need_shim=False)
@@ -211,10 +228,28 @@ def run_conc_check(prop, tier, replay=None):
            "drift_lines": drift, "model_configs": mc["configs"], "model_invariants": PROP_INV[prop],
            "model_invariants_violated": mc["violated"], "known_findings_hit": sorted(knowns), "exhaustive": False,
            "harness_s": round(t2 - t1, 1), "validation_s": round(t3 - t2, 1)}
+    if merge:
+        import json as _j
+        ep = os.path.join(common_root(), "evidence", prop + ".json")
+        old = _j.load(open(ep))
+        oc = old["coverage"]
+        oc["concurrent_part"] = cov
+        oc["states"] += cov["states"]
+        oc["transitions"] += cov["transitions"]
+        oc["traces_validated_against_impl"] += cov["traces_validated_against_impl"]
+        old["violations"] = old.get("violations", 0) + nviol
+        old["wall_s"] = round(old["wall_s"] + time.time() - t0, 2)
+        _j.dump(old, open(ep, "w"), indent=1)
+        return 1 if nviol else 0
     write_evidence(prop, tier, "model_checking", cov, time.time() - t0, nviol,
                    ["threads are serialised at the yield points of the verif feature; races inside one step are not explored",
                     "parking_lot, kernel rename/unlink atomicity trusted", "bounds: see model_configs and programs"])
     return 1 if nviol else 0
+
+
+def common_root():
+    import common
+    return common.ROOT
 
 
 def find_reset(trace, lineno):
